@@ -381,7 +381,8 @@ XParam(pe, s, q) ==
   ELSE IF Has(pe, "Index") THEN
        IF Has(pe, "Length") THEN     \* ${#a[@]}
             IF pe.Index.Parts[1].Value = <<"@">>
-            THEN [p |-> mk(Dec(IF isArr THEN Cardinality(DOMAIN s.vars[nm].m) ELSE IF Look(s, nm).set THEN 1 ELSE 0)), s |-> s]
+            THEN IF nm \in VarNames /\ s.vars[nm].t = "u" /\ s.u THEN [p |-> <<>>, s |-> Unbound(s)]     \* (unlike "${a[@]}")
+                 ELSE [p |-> mk(Dec(IF isArr THEN Cardinality(DOMAIN s.vars[nm].m) ELSE IF Look(s, nm).set THEN 1 ELSE 0)), s |-> s]
             ELSE [p |-> <<>>, s |-> Bad(s, "length of an element")]
        ELSE LET ix0 == ATop(pe.Index, s)
                 \* a negative index counts back from one past the largest index
@@ -831,6 +832,9 @@ XIf(c, s) ==
        ELSE IF Has(c, "Else") THEN XIf(c.Else, cnd)
        ELSE St(cnd, 0)
 
+\* a loop is over: `break 5` inside two loops ends with the outermost loop of the function or subshell
+LoopEnd(r, s) == [r EXCEPT !.ld = s.ld, !.ldi = s.ldi, !.ctl = IF @ \in {"b", "c"} /\ s.ld = 0 THEN "n" ELSE @]
+
 \* ---- commands
 XCmd(c, s) ==
   CASE c.k = "CallExpr" -> XCall(c, s)
@@ -840,11 +844,11 @@ XCmd(c, s) ==
          [Back(s, r) EXCEPT !.out = s.out \o r.out]
     [] c.k = "IfClause" -> XIf(c, s)
     [] c.k = "WhileClause" -> LET r == XWhile(c, [s EXCEPT !.ld = @ + 1, !.ldi = @ + 1], 0) IN
-                              IF r.bad = "" THEN [r EXCEPT !.ld = s.ld, !.ldi = s.ldi] ELSE r
+                              IF r.bad = "" THEN LoopEnd(r, s) ELSE r
     [] c.k = "ForClause" ->
          LET w == XWords(c.Loop.Items, 1, s)
              r == XFor(c, w.f, 1, [w.s EXCEPT !.ld = @ + 1, !.ldi = @ + 1], 0) IN
-         IF ~Live(w.s) THEN w.s ELSE IF r.bad = "" THEN [r EXCEPT !.ld = s.ld, !.ldi = s.ldi] ELSE r
+         IF ~Live(w.s) THEN w.s ELSE IF r.bad = "" THEN LoopEnd(r, s) ELSE r
     [] c.k = "CaseClause" ->
          LET w == XJoin(c.Word, s) IN
          IF ~Live(w.s) THEN w.s ELSE XCaseItems(IF Has(c, "Items") THEN c.Items ELSE <<>>, 1, w.v, St(w.s, 0), FALSE)
